@@ -353,8 +353,10 @@ def derived_case(draw, tier):
     n = tab[name][0]
     lmax = 30 if tier == 'quick' else 100
     ops = draw(gen.related_obs_specs(n, lmax=lmax, sigma=gen.fl(0.001, 0.3), rep_max=2))
-    path = draw(st.sampled_from(['autograd', 'num_grad', 'man_grad', 'array_mode']))
-    return {'fn': name, 'ops': ops, 'path': path}
+    path = draw(st.sampled_from(['autograd', 'num_grad', 'man_grad', 'array_mode', 'matrix_data']))
+    # keyword arguments of derived_observable are handed on to the function (value, replica means and derivative alike)
+    kw = {'scale': draw(gen.fl(0.3, 3.0)), 'lin': draw(gen.fl(-2.0, 2.0))} if draw(st.integers(0, 2)) == 0 else None
+    return {'fn': name, 'ops': ops, 'path': path, 'kw': kw}
 
 
 def derived_oracle(spec):
@@ -365,28 +367,57 @@ def derived_oracle(spec):
     vals = [float(o.value) for o in leaves]
     J = jac(vals)
     path = spec['path']
-    func = lambda x, **kw: f(anp, x)  # noqa: E731
+    kwd = spec.get('kw')
+    if kwd:
+        f0, J0 = f, np.array(J, dtype=float)
+        sc_, lin_ = float(kwd['scale']), (float(kwd['lin']) if oshape is None else 0.0)
+
+        def f(m, x, _kw=None):      # noqa: F811  (the function of the table evaluated with the keyword arguments of the call)
+            return sc_ * f0(m, x) + (lin_ * x[0] if oshape is None else 0.0)
+        J = sc_ * J0
+        if oshape is None:
+            J = np.array(J, dtype=float)
+            J[0] += lin_
+        call_kw = {'scale': sc_, 'lin': lin_}
+        func = lambda x, **kw: kw.get('scale', 1.0) * f0(anp, x) + (kw.get('lin', 0.0) * x[0] if oshape is None else 0.0)  # noqa: E731
+    else:
+        call_kw = {}
+        func = lambda x, **kw: f(anp, x)  # noqa: E731
     rtol = 1e-10
     if path == 'num_grad':
         if oshape is not None:
             raise Skip('num_grad is documented as scalar-output only')
-        res = pe.derived_observable(func, leaves, num_grad=True)
+        res = pe.derived_observable(func, leaves, num_grad=True, **call_kw)
         rtol = 1e-6
     elif path == 'man_grad':
-        res = pe.derived_observable(func, leaves, man_grad=J)
+        res = pe.derived_observable(func, leaves, man_grad=J, **call_kw)
     elif path == 'array_mode':
         if oshape is None:
             # array_mode contracts gradient and data over the trailing axes: use shape (1,) output
             # array_mode is written for lists of matrices: data of shape (k, n, m)
-            func1 = lambda x, **kw: anp.array([f(anp, x[0][0])])  # noqa: E731
-            res = pe.derived_observable(func1, np.array([[leaves]]), array_mode=True, man_grad=np.array([[[J]]]))[0]
+            func1 = lambda x, **kw: anp.array([func(x[0][0], **kw)])  # noqa: E731
+            res = pe.derived_observable(func1, np.array([[leaves]]), array_mode=True, man_grad=np.array([[[J]]]), **call_kw)[0]
         else:
-            func1 = lambda x, **kw: f(anp, x[0][0])  # noqa: E731
-            res = pe.derived_observable(func1, np.array([[leaves]]), array_mode=True)
+            func1 = lambda x, **kw: func(x[0][0], **kw)  # noqa: E731
+            res = pe.derived_observable(func1, np.array([[leaves]]), array_mode=True, **call_kw)
+    elif path == 'matrix_data':
+        # scalar mode (no array_mode) on data handed over as a 2-d array of observables: one row, or two rows when possible
+        nl = len(leaves)
+        shp = (2, nl // 2) if (nl % 2 == 0 and nl >= 4) else (1, nl)
+        M = np.empty(shp, dtype=object)
+        for i_, o_ in enumerate(leaves):
+            M[i_ // shp[1], i_ % shp[1]] = o_
+        func2 = lambda x, **kw: func(anp.reshape(x, (-1,)), **kw)  # noqa: E731
+        res = pe.derived_observable(func2, M, **call_kw)
+        labels_extra = 'data_shape:%dx%d' % shp
     else:
-        res = pe.derived_observable(func, leaves)
+        res = pe.derived_observable(func, leaves, **call_kw)
     refs = [RefObs.from_pe(o) for o in leaves]
     labels = {'fn:' + spec['fn'], 'path:' + path}
+    if kwd:
+        labels.add('with_kwargs')
+    if path == 'matrix_data':
+        labels.add(labels_extra)
     if oshape is None:
         require(is_obs(res), 'scalar function did not return an Obs', type(res).__name__)
         rf = combine(lambda v: float(f(np, np.array(v))), list(J), refs)
@@ -460,11 +491,17 @@ def cobs_case(draw, tier):
     lmax = 30 if tier == 'quick' else 100
     mode = draw(st.sampled_from(['same_replicas', 'same_cfgs']))
     ops = draw(gen.precond_specs(4, mode, lmax=lmax, sigma=gen.fl(0.001, 0.3), rep_max=2, mean=gen.fl(0.5, 3)))
-    left = draw(st.sampled_from(['cobs', 'cobs', 'obs', 'complex', 'float', 'int', 'cobs_num_imag']))
-    right = draw(st.sampled_from(['cobs', 'cobs', 'obs', 'complex', 'float', 'int', 'cobs_num_imag']))
-    if left not in ('cobs', 'cobs_num_imag') and right not in ('cobs', 'cobs_num_imag'):
+    left = draw(st.sampled_from(['cobs', 'cobs', 'obs', 'complex', 'float', 'int', 'cobs_num_imag', 'cobs_zero_imag', 'cobs_zero_real']))
+    right = draw(st.sampled_from(['cobs', 'cobs', 'obs', 'complex', 'float', 'int', 'cobs_num_imag', 'cobs_zero_imag', 'cobs_zero_real']))
+    if not left.startswith('cobs') and not right.startswith('cobs'):
         left = 'cobs'
     op = draw(st.sampled_from(['+', '-', '*', '/']))
+    if draw(st.integers(0, 9)) == 0:
+        # the mixed-type paths (one side carries a plain number as a part) meeting a part with central value exactly zero
+        left, right = draw(st.sampled_from([('cobs_num_imag', 'cobs_zero_imag'), ('cobs_num_imag', 'cobs_zero_real'),
+                                            ('cobs_zero_imag', 'cobs_num_imag'), ('cobs_zero_imag', 'complex'), ('complex', 'cobs_zero_imag'),
+                                            ('obs', 'cobs_zero_imag'), ('cobs_zero_real', 'float')]))
+        op = draw(st.sampled_from(['*', '*', '/', '+']))
     return {'ops': ops, 'mode': mode, 'left': left, 'right': right, 'op': op,
             'lnum': draw(cnum()), 'rnum': draw(cnum())}
 
@@ -476,6 +513,14 @@ def _mk_operand(pe, kind, o1, o2, num):
     if kind == 'cobs_num_imag':
         im = z.imag if abs(z.imag) > 0.1 else 0.5
         return pe.CObs(o1, im), (o1, im)
+    if kind in ('cobs_zero_imag', 'cobs_zero_real'):
+        # a part that fluctuates around a central value of exactly zero (it is an observable, not the number 0)
+        zo = o2 - float(o2.value)
+        if float(zo.value) != 0.0:
+            zo = zo - float(zo.value)
+        if float(zo.value) != 0.0:
+            return pe.CObs(o1, o2), (o1, o2)
+        return (pe.CObs(o1, zo), (o1, zo)) if kind == 'cobs_zero_imag' else (pe.CObs(zo, o1), (zo, o1))
     if kind == 'obs':
         return o1, (o1, 0.0)
     if kind == 'complex':
